@@ -52,6 +52,15 @@ pub fn gen_executor(rng: &mut Rng, independent_only: bool) -> Executor {
             cbs.push(Cb { wcet, timer, prio: 0, cost_curve });
         }
         chains.push(Chain { source, cbs: idx });
+        // a twin of a stand-alone callback: same source model, same cost, same kind (another subscription
+        // to the same topic running the same handler); the analyses see two callbacks on one model
+        if len == 1 && rng.chance(1, 8) {
+            let orig = cbs.last().unwrap().clone();
+            let k = cbs.len();
+            cbs.push(orig);
+            let src = chains.last().unwrap().source.clone();
+            chains.push(Chain { source: src, cbs: vec![k] });
+        }
     }
     let mut prios: Vec<u32> = (0..cbs.len() as u32).collect();
     rng.shuffle(&mut prios);
